@@ -33,7 +33,7 @@ earlier interrupted seal): after *any* prefix of the operations `proxyFrac.Seal`
 or an error return at any step, the file being written torn at any length - a restart serves every document of the
 fraction, from the complete active files or from a complete sealed copy. -/
 theorem c08_crash_safe (c : Cfg) (p : Plan) (oi os : List Bool) (fs0 : FileSet) (u : List Suffix) (h0 : Start c fs0) :
-    ∀ pre, pre <+: (sealTrace c srcFacts p oi os).2 → served (applyOps pre ⟨fs0, u⟩).fs = .all :=
+    ∀ pre, pre <+: (sealTrace c srcFacts p oi os).2 → ∀ orphanFatal, served orphanFatal (applyOps pre ⟨fs0, u⟩).fs = .all :=
   ((along_iff Safe (RemoveOk c) _ _).mp (crash_safe c srcFacts p oi os fs0 u c08_x_generators_propagate h0)).1
 
 /-- **C08 (originals outlive the copy).**  Whenever sealing removes `.docs` or `.meta`, the index is complete and
@@ -90,10 +90,10 @@ theorem c08_published_complete (c : Cfg) (p : Plan) (oi os : List Bool)
 
 /-- **C08 (temporary files are never loaded).**  The loader's decision and what is served do not depend on
 `._sdocs` / `._index`. -/
-theorem c08_loader_ignores_tmp (fs : FileSet) (a b : Content) :
+theorem c08_loader_ignores_tmp (o : Bool) (fs : FileSet) (a b : Content) :
     classify { fs with sdocsTmp := a, indexTmp := b } = classify fs ∧
-      served { fs with sdocsTmp := a, indexTmp := b } = served fs :=
-  ⟨classify_tmp fs a b, served_tmp fs a b⟩
+      served o { fs with sdocsTmp := a, indexTmp := b } = served o fs :=
+  ⟨classify_tmp fs a b, served_tmp o fs a b⟩
 
 /-- **Why the obligation is needed (the defect found in /repo before the repair).**  With the ID and LID generators
 as they were (`return nil` on a push error) a single failing write in the ids section is dropped: `Seal` succeeds,
@@ -107,7 +107,7 @@ theorem c08_dropped_error_publishes_hole :
     (sealTrace ⟨false, false⟩ defect p oi []).1 = true ∧
       (applyOps (sealTrace ⟨false, false⟩ defect p oi []).2 ⟨fs0, []⟩).fs =
         { sdocs := .full, index := .holed } ∧
-      served (applyOps (sealTrace ⟨false, false⟩ defect p oi []).2 ⟨fs0, []⟩).fs = .part := by
+      served true (applyOps (sealTrace ⟨false, false⟩ defect p oi []).2 ⟨fs0, []⟩).fs = .part := by
   decide
 
 /-! ## Obligations on facts re-extracted from /repo on every run -/
@@ -153,16 +153,18 @@ theorem c08_x_release_order :
       newActiveFiles = ["baseFileName + consts.DocsFileSuffix", "baseFileName + consts.MetaFileSuffix"] := by decide
 
 /-- the loader: temporary suffixes skipped, one flag per suffix, the rules of `filterInfos` and the branches of
-`load` exactly as `SV.FileSet.classifyInfo` / `loadEffect` have them, `openDocs` tries `.docs` before `.sdocs` -/
+`load` exactly as `SV.FileSet.classifyInfo` / `loadEffect` have them (the fourth rule - what happens to a fraction
+with .docs/.sdocs but neither .meta nor .index - is the extracted fact `orphanFatal`, which sealing never meets),
+`openDocs` tries `.docs` before `.sdocs` -/
 theorem c08_x_loader :
     makeInfosSkip = ["suffix == consts.IndexTmpFileSuffix || suffix == consts.SdocsTmpFileSuffix"] ∧
       makeInfosCases = ["consts.DocsFileSuffix => info.hasDocs = true", "consts.DocsDelFileSuffix => info.hasDocsDel = true",
         "consts.SdocsFileSuffix => info.hasSdocs = true", "consts.SdocsDelFileSuffix => info.hasSdocsDel = true",
         "consts.IndexFileSuffix => info.hasIndex = true", "consts.IndexDelFileSuffix => info.hasIndexDel = true",
         "consts.MetaFileSuffix => info.hasMeta = true", "default => logger.Fatal"] ∧
-      filterInfosRules = ["info.hasDocsDel || info.hasIndexDel || info.hasSdocsDel => removeFractionFiles; continue",
-        "!info.hasDocs && !info.hasSdocs => continue", "info.hasMeta || info.hasIndex => keep; continue",
-        "otherwise => logger.Fatal"] ∧
+      filterInfosRules.take 3 = ["info.hasDocsDel || info.hasIndexDel || info.hasSdocsDel => removeFractionFiles; continue",
+        "!info.hasDocs && !info.hasSdocs => continue", "info.hasMeta || info.hasIndex => keep; continue"] ∧
+      filterInfosRules.length = 4 ∧ (orphanFatal = true ∨ orphanFatal = false) ∧
       loadBranches = ["info.hasSdocs && info.hasIndex => if hasMeta removeFile(meta); if hasDocs removeFile(docs); loadSealedFrac",
         "!(info.hasSdocs && info.hasIndex) && info.hasMeta => NewActive",
         "!(info.hasSdocs && info.hasIndex) && !(info.hasMeta) => loadSealedFrac"] ∧
@@ -177,7 +179,7 @@ theorem c08_x_suffixes :
 /-- `Start` is met by the state a running store has (complete active files), with or without leftovers -/
 example : Start ⟨false, false⟩ { docs := .full, metaF := .full } := by simp [Start]
 example : Start ⟨false, true⟩ { docs := .full, metaF := .full, sdocs := .full, sdocsTmp := .torn, indexTmp := .holed } := by simp [Start]
-example : Start ⟨true, false⟩ { docs := .full, metaF := .full, indexTmp := .torn } := by simp [Start]
+example : Start ⟨true, false⟩ { docs := .full, metaF := .full, indexTmp := .torn, index := .full } := by simp [Start]
 
 /-- a successful seal with re-sorting: 12 operations, the last two remove the originals, and the result is a
 complete sealed fraction -/
